@@ -51,7 +51,7 @@ scalar AnchorScalar
 type AnchorObj { id: ID!, name: String, count: Int, self: AnchorObj, others(first: Int = 3): [AnchorObj!] }
 directive @anchor(n: Int!, t: String) on FIELD | FRAGMENT_SPREAD | INLINE_FRAGMENT | QUERY | MUTATION | SUBSCRIPTION | FRAGMENT_DEFINITION
 """
-ANCHOR_FIELD = ("anchor(i: Int, req: Int!, inp: AnchorIn, inn: AnchorIn2!, lst: [Int], ll: [[Int]], lnn: [Int!]!, "
+ANCHOR_FIELD = ("anchor(i: Int, req: Int!, nd: Int! = 7, inp: AnchorIn, inn: AnchorIn2!, lst: [Int], ll: [[Int]], lnn: [Int!]!, "
                 "e: AnchorEnum = ONE, sc: AnchorScalar, s: String, f: Float, b: Boolean, id: ID, li: [AnchorIn2!]): AnchorObj")
 
 _SCALARS = ["Int", "Float", "String", "Boolean", "ID"]
@@ -585,6 +585,9 @@ class DocGen:
                 used |= self.frag_vars[f]
             op["vars"] = [{"name": n, "type": self.vars[n]["type"], "default": self.vars[n]["default"]}
                           for n in sorted(used)]
+            for v in op["vars"]:
+                if nops > 1 and v["default"] is None and not v["type"].endswith("!") and rng.random() < 0.3:
+                    v["type"] += "!"
             rng.shuffle(op["vars"])
             defs.append(op)
         defs.extend(self.frags)
@@ -659,6 +662,65 @@ def _query_op(doc, rng):
             x["name"] = "ZAnon"
     doc["defs"].append(o)
     return o
+
+
+def variable_position_forms(rng):
+    """(label, [definitions]) -- documents breaking VariablesInAllowedPosition at exactly one
+    of several usages of one variable: a nullable default-less variable at a non-null
+    position with a default (allowed) and at one without (not allowed), in both orders,
+    within one field, across fields, split between operation and fragment; and operations
+    sharing a fragment while declaring its variable with different types, in both orders"""
+    out = []
+
+    def anc(alias, extra, dirs=None):
+        a = _anchor_field(rng, None)
+        a["alias"] = alias
+        names = {x[0] for x in extra}
+        a["args"] = [x for x in a["args"] if x[0] not in names] + extra
+        a["dirs"] = dirs or []
+        return a
+
+    zv = [{"name": "zv", "type": "Int", "default": None}]
+    v = ["var", "zv"]
+    lenient, strict = ["nd", v], ["req", v]
+    for order in (0, 1):
+        pair = [lenient, strict] if order == 0 else [strict, lenient]
+        out.append(("one-field-%d" % order,
+                    [{"kind": "op", "op": "query", "name": "ZV", "vars": copy.deepcopy(zv), "dirs": [],
+                      "sels": [anc("zb", copy.deepcopy(pair))]}]))
+        two = [anc("zl", [copy.deepcopy(lenient)]), anc("zs", [copy.deepcopy(strict)])]
+        if order:
+            two.reverse()
+        out.append(("two-fields-%d" % order,
+                    [{"kind": "op", "op": "query", "name": "ZV", "vars": copy.deepcopy(zv), "dirs": [], "sels": two}]))
+        inop, infrag = (lenient, strict) if order == 0 else (strict, lenient)
+        sels = [anc("zo", [copy.deepcopy(inop)]), {"k": "spread", "name": "ZFq", "dirs": []}]
+        if rng.random() < 0.5:
+            sels.reverse()
+        out.append(("op-and-fragment-%d" % order,
+                    [{"kind": "op", "op": "query", "name": "ZV", "vars": copy.deepcopy(zv), "dirs": [], "sels": sels},
+                     {"kind": "frag", "name": "ZFq", "on": "Query", "dirs": [], "sels": [anc("zf", [copy.deepcopy(infrag)])]}]))
+        # input object field with a default (AnchorIn.nn: AnchorIn2! = ...) against the argument inn: AnchorIn2!
+        vo = [{"name": "zw", "type": "AnchorIn2", "default": None}]
+        args = [["inp", ["obj", [["r", ["bool", True]], ["nn", ["var", "zw"]]]]], ["inn", ["var", "zw"]]]
+        if order:
+            args.reverse()
+        out.append(("input-field-%d" % order,
+                    [{"kind": "op", "op": "query", "name": "ZW", "vars": vo, "dirs": [], "sels": [anc("zi", args)]}]))
+    shared = {"kind": "frag", "name": "ZShared", "on": "Query", "dirs": [],
+              "sels": [anc("za", [], [{"name": "skip", "args": [["if", ["var", "zf"]]]}]),
+                       _leaf("zt", "__typename")]}
+
+    def op(name, t, default=None):
+        return {"kind": "op", "op": "query", "name": name, "vars": [{"name": "zf", "type": t, "default": default}],
+                "dirs": [], "sels": [{"k": "spread", "name": "ZShared", "dirs": []}]}
+
+    strict_op, loose_op, dflt_op = op("ZStrict", "Boolean!"), op("ZLoose", "Boolean"), op("ZDefault", "Boolean", ["bool", False])
+    for name, ops in (("shared-compatible-first", [strict_op, loose_op]), ("shared-incompatible-first", [loose_op, strict_op]),
+                      ("shared-3-ops-a", [strict_op, dflt_op, loose_op]), ("shared-3-ops-b", [dflt_op, loose_op, strict_op]),
+                      ("shared-3-ops-c", [loose_op, strict_op, dflt_op])):
+        out.append((name, copy.deepcopy(ops) + [copy.deepcopy(shared)]))
+    return out
 
 
 # --------------------------------------------------- labelled violators
@@ -833,6 +895,13 @@ def violate(rng, schema, doc, label):
         if len(a["args"]) == 3:
             a["dirs"] = [{"name": "anchor", "args": [["t", ["str", "x"]]]}]
         q["sels"].append(a)
+    elif label == 24 and rng.random() < 0.6:
+        _name, defs = rng.choice(variable_position_forms(rng))
+        for o in ops:
+            if o["name"] is None:
+                o["name"] = "ZAnon"
+        for x in defs:
+            d["defs"].insert(rng.randint(0, len(d["defs"])) if x["kind"] == "frag" else len(d["defs"]), x)
     elif label == 24:
         q = _query_op(d, rng)
         vt, pos = rng.choice([("Int", "req"), ("String", "i"), ("[Int]", "lnn"), ("Int", "lst2"), ("AnchorIn2", "inn"),
@@ -994,6 +1063,8 @@ def special_mutants(rng):
                 a2 = copy.deepcopy(a)
                 a["sels"], a2["sels"] = two, [clash]
                 out.append({"defs": [{"kind": "op", "op": "query", "name": None, "vars": [], "dirs": [], "sels": [a, a2]}]})
+    for _name, defs in variable_position_forms(rng):
+        out.append({"defs": defs})
     # transitive fragment use through >= 3 fragments, every definition order
     for var_defined in (True, False):
         a = _anchor_field(rng)
